@@ -287,6 +287,17 @@ pub fn judge(scn: &Scn, out: &Outcome) -> Vec<Finding> {
     // ------------------------------------------------------------ hang etc.
     match &out.rec.status {
         Status::Hang(list) => {
+            let lbl = scn.cfg.label();
+            let waitlbl = lbl.rsplit('-').next().unwrap_or("").to_string();
+            let base = scn.name.split('/').next().unwrap_or("").to_string();
+            let all_recv_gone = v.recv_slots.iter().all(|&s| {
+                hist.iter().any(|e| {
+                    e.h == s && matches!(e.k, OpK::DropH | OpK::Unsub) && e.start < out.t_join
+                })
+            });
+            let mut blocked: Vec<String> = Vec::new();
+            let mut props: Vec<&'static str> = Vec::new();
+            let mut details: Vec<String> = Vec::new();
             for (t, b) in list {
                 let cur = out.cur_ops[*t].map(|(o, _)| o);
                 let opk = cur.map(|o| o.k);
@@ -302,10 +313,6 @@ pub fn judge(scn: &Scn, out: &Outcome) -> Vec<Finding> {
                     // waiting for a hand-off from a thread that is itself stuck
                     continue;
                 }
-                let all_recv_gone = v
-                    .recv_slots
-                    .iter()
-                    .all(|&s| hist.iter().any(|e| e.h == s && matches!(e.k, OpK::DropH | OpK::Unsub)));
                 let prop: &'static str = match opk {
                     Some(OpK::Recv) | Some(OpK::RecvView) | Some(OpK::RecvAll)
                     | Some(OpK::IterAll) | Some(OpK::IterWithAll) => {
@@ -325,16 +332,29 @@ pub fn judge(scn: &Scn, out: &Outcome) -> Vec<Finding> {
                     Some(OpK::StreamNext) | Some(OpK::StreamAll) => "C14",
                     _ => scn.hang_prop,
                 };
+                if !props.contains(&prop) {
+                    props.push(prop);
+                }
+                blocked.push(format!(
+                    "{}:{}",
+                    opk.map(|k| format!("{:?}", k)).unwrap_or("-".into()),
+                    bk
+                ));
+                details.push(format!("thread {} never finishes: {:?} while in {:?}", t, b, cur));
+            }
+            blocked.sort();
+            for prop in props {
                 fs.push(f(
                     prop,
                     format!(
-                        "{}|hang|op={}|block={}|{}",
+                        "{}|hang|{}|{}|wait={}|blocked=[{}]",
                         prop,
-                        opk.map(|k| format!("{:?}", k)).unwrap_or("-".into()),
-                        bk,
-                        fl
+                        base,
+                        fl,
+                        waitlbl,
+                        blocked.join(",")
                     ),
-                    format!("thread {} never finishes: {:?} while in {:?}", t, b, cur),
+                    details.join("; "),
                 ));
             }
         }
@@ -880,7 +900,7 @@ pub fn judge(scn: &Scn, out: &Outcome) -> Vec<Finding> {
                         Res::Disc(_) | Res::SinkErr(_) => None,
                         Res::Ok | Res::Ready => Some("accepted"),
                         Res::Full(_) => Some("Full"),
-                        Res::NotReadyMsg(_) => Some("NotReady"),
+                        Res::NotReadyMsg(_) => Some("NotReady(msg)"),
                         _ => None,
                     };
                     if let Some(b) = bad {
